@@ -89,7 +89,7 @@ def main(tier):
                                   "why": "a trivia variant of a family program does not parse to the same AST"})
     from vf.props import glue
     try:
-        gfind, gok, grun = glue.analyse()
+        gfind, gok, genc, gnotes = glue.analyse_all()
         witnesses += glue.witnesses_for(PROP, gfind)
     except common.Inconclusive as e:
         rep.inconc(str(e))
